@@ -229,13 +229,18 @@ def aggregates(prog, adt_pat, variant=None, crates=None):
 
 
 # --------------------------------------------------------------------------- must-pass-through
-def must_pass(fn, start, targets, through, unwind=False):
+def must_pass(fn, start, targets, through, unwind=False, within=None):
     """True iff every path from block `start` to any block in `targets` passes through a block in
-    `through` (start itself counts if it is in `through`)."""
+    `through` (start itself counts if it is in `through`). `within`: only paths that stay inside this set of
+    blocks (plus the targets) are considered."""
     through = set(through)
     if start in through:
         return True
-    reach = fn.reachable(start, blocked=through, unwind=unwind)
+    blocked = set(through)
+    if within is not None:
+        keep = set(within) | set(targets)
+        blocked |= {b for b in range(len(fn.blocks)) if b not in keep}
+    reach = fn.reachable(start, blocked=blocked, unwind=unwind)
     return not (reach & set(targets))
 
 
@@ -327,3 +332,8 @@ def loop_of(fn, bb):
         if bb in body and (best is None or len(body) < len(best[1])):
             best = (h, body)
     return best
+
+
+def arm(sw, idx):
+    """target block of variant idx of an enum switch (explicit arm or the otherwise edge)"""
+    return sw['arms'].get(idx, sw['otherwise'])
